@@ -4,8 +4,16 @@
 #ifndef NSEG
 #define NSEG 2
 #endif
+#ifdef NGRP        /* format 12 variant: records (3,1) -> a one-segment format 4 subtable (terminator only), (3,10) -> a format 12 subtable with NGRP groups */
+#undef NSEG
+#define NSEG 1
+#define SUBLEN (16 + 8 * NSEG)
+#define SUB12 (16 + 12 * NGRP)
+#define LEN (20 + SUBLEN + SUB12)
+#else
 #define SUBLEN (16 + 8 * NSEG)
 #define LEN (12 + SUBLEN)
+#endif
 static unsigned char vh_master[LEN];
 #define VH_PIN_BYTES(b) do { for (unsigned i_ = 0; i_ < LEN; ++i_) b[i_] = vh_master[i_]; } while (0)
 #include "loader.h"
@@ -13,6 +21,7 @@ static unsigned char vh_master[LEN];
 static inline void w16(unsigned char *p, unsigned v) { p[0] = (unsigned char)(v >> 8); p[1] = (unsigned char)v; }
 static inline unsigned r16(const unsigned char *p) { return (p[0] << 8) | p[1]; }
 
+#ifndef NGRP
 VH_ENTRY vh_cmap_paths() {
   // table: version 0, 1 subtable; record (3,1) at offset 12
   for (unsigned i = 0; i < LEN; ++i) vh_master[i] = nondet_u8();
@@ -55,3 +64,41 @@ VH_ENTRY vh_cmap_paths() {
   ASSERT(d == c, "direct and cached lookups agree on every code point");
   VH_END();
 }
+#else
+static inline void w32(unsigned char *p, uint32_t v) { p[0] = (unsigned char)(v >> 24); p[1] = (unsigned char)(v >> 16); p[2] = (unsigned char)(v >> 8); p[3] = (unsigned char)v; }
+// ---- supplementary planes: the format 12 subtable through both paths.  Group ranges are given by the query (GRANGES = s0,e0,s1,e1,..., above
+// U+FFFF, ascending, disjoint), start glyph ids are arbitrary.  The cached object is not destroyed here (its destructor walks 0x1100 block pointers;
+// the destructor is exercised by the format 4 queries).
+VH_ENTRY vh_cmap_paths12() {
+  for (unsigned i = 0; i < LEN; ++i) vh_master[i] = nondet_u8();
+  w16(vh_master + 0, 0); w16(vh_master + 2, 2);
+  w16(vh_master + 4, 3); w16(vh_master + 6, 1); w16(vh_master + 8, 0); w16(vh_master + 10, 20);
+  w16(vh_master + 12, 3); w16(vh_master + 14, 10); w16(vh_master + 16, 0); w16(vh_master + 18, 20 + SUBLEN);
+  unsigned char *st = vh_master + 20;
+  w16(st + 0, 4); w16(st + 2, SUBLEN); w16(st + 6, 2);
+  w16(st + 14, 0xFFFF); w16(st + 16, 0); w16(st + 18, 0xFFFF); w16(st + 20, 1); w16(st + 22, 0);      // endCode, pad, startCode, idDelta, idRangeOffset
+  unsigned char *t = vh_master + 20 + SUBLEN;
+  w16(t + 0, 12); w16(t + 2, 0); w32(t + 4, SUB12); w32(t + 12, NGRP);
+  static const uint32_t rg[] = {GRANGES};
+  for (unsigned g = 0; g < NGRP; ++g) { w32(t + 16 + 12 * g, rg[2 * g]); w32(t + 16 + 12 * g + 4, rg[2 * g + 1]); }
+  Provider *p = &g_prov;
+  p->outstanding = p->handed_out = p->released = 0; p->sealed = false; p->last = 0; p->len = LEN; p->only_tag = 0; p->hdr_word = -1;
+  Face *f = vh_raw_face(p, true);
+  uint32_t usv = nondet_u32();
+  ASSUME(usv > 0xFFFF && usv < 0x10FFFF);         // BMP code points are decided by the format 4 queries; U+10FFFF is never cached (DESIGN 9.3)
+  uint16 d, c;
+  {
+    DirectCmap direct(*f);
+    ASSERT(bool(direct), "accepted by the direct path");
+    d = direct[usv];
+  }
+  ASSERT(p->outstanding == 0, "DirectCmap released the table");
+  CachedCmap *cached = vh_new<CachedCmap>();
+  ::new (cached) CachedCmap(*f);
+  ASSERT(bool(*cached), "and by the cached path");
+  ASSERT(p->outstanding == 0, "CachedCmap has released the table once the cache is filled");
+  c = (*cached)[usv];
+  ASSERT(d == c, "direct and cached lookups agree on every supplementary-plane code point");
+  VH_END();
+}
+#endif
